@@ -74,6 +74,7 @@ structure EvalTightening (tw : Flags → Bool → Flags) : Prop where
   dTapVer : ∀ fl b, (tw fl b).discourageTaprootVersion = fl.discourageTaprootVersion
   dWitProg : ∀ fl b, (tw fl b).discourageWitnessProgram = fl.discourageWitnessProgram
 
+section
 variable {tw : Flags → Bool → Flags} (T : EvalTightening tw)
 include T
 
@@ -172,7 +173,73 @@ theorem verifyScript_mono (fl : Flags) (chk : Checker) (scriptSig scriptPubKey :
       · intro r2
         exact MonoR.refl _
 
-omit T
+
+
+end
+
+/-! ### generic chain: from one opcode step to `EvalScript` -/
+
+/-- A context tweak `set c b` under which every opcode is monotone and which the per-opcode checks of the
+evaluation loop do not look at. -/
+structure StepTightening (set : Ctx → Bool → Ctx) : Prop where
+  exec : ∀ c op rest st, MonoR (execOp (set c true) op rest st) (execOp (set c false) op rest st)
+  pre : ∀ c b op d st, stepPre (set c b) op d st = stepPre c op d st
+  minimaldata : ∀ c b, (set c b).flags.minimaldata = c.flags.minimaldata
+  sv : ∀ c b, (set c b).sv = c.sv
+
+section
+variable {set : Ctx → Bool → Ctx} (S : StepTightening set)
+include S
+
+theorem stepOp_mono (c : Ctx) (op : Nat) (d rest : Bytes) (st : St) :
+    MonoR (stepOp (set c true) op d rest st) (stepOp (set c false) op d rest st) := by
+  unfold stepOp
+  rw [S.pre c true, S.pre c false]
+  apply MonoR.bind (MonoR.refl _)
+  intro st0
+  apply MonoR.bind
+  · unfold stepCore
+    simp only [S.minimaldata]
+    split
+    · exact MonoR.refl _
+    · split
+      · exact S.exec c op rest st0
+      · exact MonoR.refl _
+  · intro st1; exact MonoR.refl _
+
+theorem evalLoop_mono (c : Ctx) : ∀ (fuel : Nat) (script : Bytes) (st : St),
+    MonoR (evalLoop (set c true) fuel script st) (evalLoop (set c false) fuel script st) := by
+  intro fuel
+  induction fuel with
+  | zero =>
+    intro script st
+    cases script with
+    | nil => simp only [evalLoop]; exact MonoR.refl _
+    | cons b t => simp only [evalLoop]; exact MonoR.refl _
+  | succ n ih =>
+    intro script st
+    cases script with
+    | nil => simp only [evalLoop]; exact MonoR.refl _
+    | cons b t =>
+      rw [evalLoop, evalLoop]
+      cases getOp (b :: t) with
+      | none => exact MonoR.refl _
+      | some r =>
+        obtain ⟨op, d, rest⟩ := r
+        simp only []
+        exact MonoR.bind (stepOp_mono S c op d rest st) (fun st1 => ih rest st1)
+
+theorem evalScript_mono (c : Ctx) (script : Bytes) (stack : List Bytes) (w : Int) :
+    MonoR (evalScript (set c true) script stack w) (evalScript (set c false) script stack w) := by
+  unfold evalScript
+  simp only [S.sv]
+  split
+  · exact MonoR.refl _
+  · exact MonoR.bind (evalLoop_mono S c _ _ _) (fun st => MonoR.refl _)
+
+end
+
+theorem MonoR.error_left {α : Type} (e : Err) (b : R α) : MonoR (.error e) b := fun _ h => by cases h
 
 /-! ### CHECKLOCKTIMEVERIFY -/
 
@@ -206,53 +273,11 @@ theorem execOp_cltv_mono (c : Ctx) (op : Nat) (rest : Bytes) (st : St) :
   · rw [execOp_cltv_irrelevant c true op rest st hop, execOp_cltv_irrelevant c false op rest st hop]
     exact MonoR.refl _
 
-theorem stepOp_cltv_mono (c : Ctx) (op : Nat) (d rest : Bytes) (st : St) :
-    MonoR (stepOp (setCltv c true) op d rest st) (stepOp (setCltv c false) op d rest st) := by
-  unfold stepOp
-  apply MonoR.bind (MonoR.of_eq rfl)
-  intro st0
-  apply MonoR.bind
-  · unfold stepCore
-    split
-    · exact MonoR.of_eq rfl
-    · split
-      · exact execOp_cltv_mono c op rest st0
-      · exact MonoR.refl _
-  · intro st1; exact MonoR.refl _
-
-theorem evalLoop_cltv_mono (c : Ctx) : ∀ (fuel : Nat) (script : Bytes) (st : St),
-    MonoR (evalLoop (setCltv c true) fuel script st) (evalLoop (setCltv c false) fuel script st) := by
-  intro fuel
-  induction fuel with
-  | zero =>
-    intro script st
-    cases script with
-    | nil => simp only [evalLoop]; exact MonoR.refl _
-    | cons b t => simp only [evalLoop]; exact MonoR.refl _
-  | succ n ih =>
-    intro script st
-    cases script with
-    | nil => simp only [evalLoop]; exact MonoR.refl _
-    | cons b t =>
-      rw [evalLoop, evalLoop]
-      cases getOp (b :: t) with
-      | none => exact MonoR.refl _
-      | some r =>
-        obtain ⟨op, d, rest⟩ := r
-        simp only []
-        exact MonoR.bind (stepOp_cltv_mono c op d rest st) (fun st1 => ih rest st1)
-
-theorem evalScript_cltv_mono (c : Ctx) (script : Bytes) (stack : List Bytes) (w : Int) :
-    MonoR (evalScript (setCltv c true) script stack w) (evalScript (setCltv c false) script stack w) := by
-  unfold evalScript
-  have hsv : (setCltv c true).sv = (setCltv c false).sv := rfl
-  simp only [hsv]
-  split
-  · exact MonoR.refl _
-  · exact MonoR.bind (evalLoop_cltv_mono c _ _ _) (fun st => MonoR.refl _)
+theorem cltv_step : StepTightening setCltv :=
+  ⟨execOp_cltv_mono, fun _ _ _ _ _ => rfl, fun _ _ => rfl, fun _ _ => rfl⟩
 
 theorem cltv_tightening : EvalTightening (fun fl b => { fl with cltv := b }) where
-  eval := fun fl chk sv xd s st w => evalScript_cltv_mono { flags := fl, sv := sv, chk := chk, xd := xd } s st w
+  eval := fun fl chk sv xd s st w => evalScript_mono cltv_step { flags := fl, sv := sv, chk := chk, xd := xd } s st w
   sigpushonly := fun _ _ => rfl
   witness := fun _ _ => rfl
   p2sh := fun _ _ => rfl
@@ -294,53 +319,56 @@ theorem execOp_csv_mono (c : Ctx) (op : Nat) (rest : Bytes) (st : St) :
   · rw [execOp_csv_irrelevant c true op rest st hop, execOp_csv_irrelevant c false op rest st hop]
     exact MonoR.refl _
 
-theorem stepOp_csv_mono (c : Ctx) (op : Nat) (d rest : Bytes) (st : St) :
-    MonoR (stepOp (setCsv c true) op d rest st) (stepOp (setCsv c false) op d rest st) := by
-  unfold stepOp
-  apply MonoR.bind (MonoR.of_eq rfl)
-  intro st0
-  apply MonoR.bind
-  · unfold stepCore
-    split
-    · exact MonoR.of_eq rfl
-    · split
-      · exact execOp_csv_mono c op rest st0
-      · exact MonoR.refl _
-  · intro st1; exact MonoR.refl _
-
-theorem evalLoop_csv_mono (c : Ctx) : ∀ (fuel : Nat) (script : Bytes) (st : St),
-    MonoR (evalLoop (setCsv c true) fuel script st) (evalLoop (setCsv c false) fuel script st) := by
-  intro fuel
-  induction fuel with
-  | zero =>
-    intro script st
-    cases script with
-    | nil => simp only [evalLoop]; exact MonoR.refl _
-    | cons b t => simp only [evalLoop]; exact MonoR.refl _
-  | succ n ih =>
-    intro script st
-    cases script with
-    | nil => simp only [evalLoop]; exact MonoR.refl _
-    | cons b t =>
-      rw [evalLoop, evalLoop]
-      cases getOp (b :: t) with
-      | none => exact MonoR.refl _
-      | some r =>
-        obtain ⟨op, d, rest⟩ := r
-        simp only []
-        exact MonoR.bind (stepOp_csv_mono c op d rest st) (fun st1 => ih rest st1)
-
-theorem evalScript_csv_mono (c : Ctx) (script : Bytes) (stack : List Bytes) (w : Int) :
-    MonoR (evalScript (setCsv c true) script stack w) (evalScript (setCsv c false) script stack w) := by
-  unfold evalScript
-  have hsv : (setCsv c true).sv = (setCsv c false).sv := rfl
-  simp only [hsv]
-  split
-  · exact MonoR.refl _
-  · exact MonoR.bind (evalLoop_csv_mono c _ _ _) (fun st => MonoR.refl _)
+theorem csv_step : StepTightening setCsv :=
+  ⟨execOp_csv_mono, fun _ _ _ _ _ => rfl, fun _ _ => rfl, fun _ _ => rfl⟩
 
 theorem csv_tightening : EvalTightening (fun fl b => { fl with csv := b }) where
-  eval := fun fl chk sv xd s st w => evalScript_csv_mono { flags := fl, sv := sv, chk := chk, xd := xd } s st w
+  eval := fun fl chk sv xd s st w => evalScript_mono csv_step { flags := fl, sv := sv, chk := chk, xd := xd } s st w
+  sigpushonly := fun _ _ => rfl
+  witness := fun _ _ => rfl
+  p2sh := fun _ _ => rfl
+  cleanstack := fun _ _ => rfl
+  taproot := fun _ _ => rfl
+  dOpSuccess := fun _ _ => rfl
+  dTapVer := fun _ _ => rfl
+  dWitProg := fun _ _ => rfl
+
+/-! ### NULLDUMMY -/
+
+def setNulldummy (c : Ctx) (b : Bool) : Ctx := { c with flags := { c.flags with nulldummy := b } }
+
+theorem setNulldummy_agree (c : Ctx) (b : Bool) : SigAgree c (setNulldummy c b) :=
+  ⟨fun _ => rfl, fun _ _ => rfl, rfl, rfl, rfl⟩
+
+set_option maxHeartbeats 1000000 in
+theorem opCheckMultisig_nulldummy_mono (c : Ctx) (v : Bool) (st : St) :
+    MonoR (opCheckMultisig (setNulldummy c true) st v) (opCheckMultisig (setNulldummy c false) st v) := by
+  unfold opCheckMultisig
+  simp only [multisigLoop_congr (setNulldummy_agree c _), multisigStrip_congr (setNulldummy_agree c _)]
+  have e1 : (setNulldummy c true).flags.nulldummy = true := rfl
+  have e2 : (setNulldummy c false).flags.nulldummy = false := rfl
+  have e3 : ∀ b, (setNulldummy c b).sv = c.sv := fun _ => rfl
+  have e4 : ∀ b, (setNulldummy c b).flags.minimaldata = c.flags.minimaldata := fun _ => rfl
+  have e5 : ∀ b, (setNulldummy c b).flags.nullfail = c.flags.nullfail := fun _ => rfl
+  simp only [e1, e2, e3, e4, e5, Bool.true_and, Bool.false_and, Bool.false_eq_true, if_false]
+  repeat' (first
+    | exact MonoR.refl _
+    | exact MonoR.error_left _ _
+    | (apply MonoR.bind (MonoR.refl _); intro _)
+    | split)
+
+set_option maxHeartbeats 2000000 in
+theorem execOp_nulldummy_mono (c : Ctx) (op : Nat) (rest : Bytes) (st : St) :
+    MonoR (execOp (setNulldummy c true) op rest st) (execOp (setNulldummy c false) op rest st) := by
+  unfold execOp
+  split <;> first | exact MonoR.of_eq rfl | exact opCheckMultisig_nulldummy_mono c _ st
+
+theorem nulldummy_step : StepTightening setNulldummy :=
+  ⟨execOp_nulldummy_mono, fun _ _ _ _ _ => rfl, fun _ _ => rfl, fun _ _ => rfl⟩
+
+theorem nulldummy_tightening : EvalTightening (fun fl b => { fl with nulldummy := b }) where
+  eval := fun fl chk sv xd s st w =>
+    evalScript_mono nulldummy_step { flags := fl, sv := sv, chk := chk, xd := xd } s st w
   sigpushonly := fun _ _ => rfl
   witness := fun _ _ => rfl
   p2sh := fun _ _ => rfl
